@@ -7,7 +7,7 @@ Reusable predicates.
 import enum
 import operator
 from collections.abc import Sequence
-from dataclasses import dataclass
+from dataclasses import dataclass, field
 from typing import Optional
 
 from .safe import safe_issubclass
@@ -24,6 +24,7 @@ from .value import (
     Value,
     is_overlapping,
     stable_iteration_order,
+    stable_repr,
     unannotate,
     unite_values,
 )
@@ -54,7 +55,7 @@ class IsAssignablePredicate:
     """
 
     pattern_value: Value
-    ctx: CanAssignContext
+    ctx: CanAssignContext = field(repr=False)
     positive_only: bool
 
     def __call__(self, value: Value, positive: bool) -> Optional[Value]:
@@ -89,7 +90,7 @@ class EqualsPredicate:
     """Predicate that filters out values that are not equal to pattern_val."""
 
     pattern_val: object
-    ctx: CanAssignContext
+    ctx: CanAssignContext = field(repr=False)
     use_is: bool = False
 
     def __call__(self, value: Value, positive: bool) -> Optional[Value]:
@@ -136,7 +137,15 @@ class InPredicate:
 
     pattern_vals: Sequence[object]
     pattern_type: type
-    ctx: CanAssignContext
+    ctx: CanAssignContext = field(repr=False)
+
+    def __repr__(self) -> str:
+        # The members of a set are listed in a stable order: this text ends up in
+        # the output of reveal_type().
+        return (
+            f"InPredicate(pattern_vals={stable_repr(self.pattern_vals)},"
+            f" pattern_type={self.pattern_type!r})"
+        )
 
     def __call__(self, value: Value, positive: bool) -> Optional[Value]:
         inner_value = unannotate(value)
